@@ -21,7 +21,7 @@ func codecPatterns() []string {
 	for _, p := range codecPkgs {
 		out = append(out, "./"+p)
 	}
-	return append(out, "./pkg/protocol/xprotocol", "./pkg/stream/xprotocol", "./pkg/protocol", "./pkg/stream/http", "./pkg/stream/http2", "./pkg/protocol/http2", "./pkg/module/http2", "./pkg/proxy", "./pkg/network", "./pkg/mtls")
+	return append(out, "./pkg/protocol/xprotocol", "./pkg/stream/xprotocol", "./pkg/protocol", "./pkg/protocol/internal/registry", "./pkg/stream/http", "./pkg/stream/http2", "./pkg/protocol/http2", "./pkg/module/http2", "./pkg/proxy", "./pkg/network", "./pkg/mtls")
 }
 
 func init() {
